@@ -26,10 +26,27 @@ fn prod_le(a: u128, b: u128, c: u128, d: u128) -> bool {
     mul_u128(a, b) <= mul_u128(c, d)
 }
 
+/// the witness of known finding C20-F2 / C03-F1 on the REAL functions (scale_supplies + collateral_to_liquidity_from_scaled, as the
+/// Solend and Kamino reserves call them): 2 062 747 110 626 collateral of a reserve with 6 188 002 000 001 raw liquidity and
+/// 2 062 747 777 319 raw collateral, 9 decimals, is worth 6 187 999 999 999.99999… tokens
+pub fn conversion_above_exact(tag: &str, rep: &mut Report) {
+    let (liq, col, c, d): (u64, u64, u64, u8) = (6_188_002_000_001, 2_062_747_777_319, 2_062_747_110_626, 9);
+    let exact = (c as u128) * (liq as u128) / (col as u128);
+    if let Some((l, cc)) = scale_supplies(I80F48::from_num(liq), col, d) {
+        if let Some(v) = collateral_to_liquidity_from_scaled(c, l, cc) {
+            if (v as u128) > exact {
+                rep.fail(format!("{} conversion-announces-above-exact (denominator truncation): collateral_to_liquidity of {} collateral announces {} tokens where the exact value is {} (reserve liquidity {}, collateral supply {}, {} decimals)", tag, c, v, exact, liq, col, d));
+            }
+        }
+    }
+}
+
 pub fn run(rng: &mut Rng, n: usize, rep: &mut Report) {
     // directed candidate (DESIGN §7 row 6)
     check_price(6 * ONE, 3, 9, 1_000_000_000_000, rep);
     check_price(6 * ONE, 3, 9, 10_000_000_000, rep);
+    // directed candidate (known finding C20-F2): the conversion itself, one unit above the exact value
+    conversion_above_exact("C20", rep);
     for i in 0..n {
         rep.bump("cases");
         match i % 4 {
